@@ -1029,6 +1029,10 @@ class VMDKInspector(FileInspector):
             LOG.warning('Unsupported VMDK format %r', self.vmdktype)
             return 0
 
+        if not self.has_region('header'):
+            # A text-only descriptor has no sparse header to carry the size
+            return 0
+
         # If we have the descriptor, we definitely have the header
         _sig, _ver, _flags, sectors, _grain, _desc_sec, _desc_num = (
             struct.unpack('<IIIQQQQ', self.region('header').data[:44]))
